@@ -176,7 +176,13 @@ class BatchBase(futures.FutureBase):
 
     def dump(self, indent=0):
         debug.write(debug.str(self), indent)
-        debug.write("Priority: %s" % debug.repr(self.get_priority()), indent + 1)
+        try:
+            priority = debug.repr(self.get_priority())
+        except Exception as e:
+            # get_priority() is a user hook, and the scheduler only asks it of pending,
+            # non-empty batches; a dump must not fail where it does
+            priority = "<n/a: get_priority() raised %s>" % debug.repr(e)
+        debug.write("Priority: %s" % priority, indent + 1)
         if self.items:
             debug.write("Items:", indent + 1)
             for item in self.items:
